@@ -30,11 +30,15 @@ from harness.common import Ctx, Part, lean_batch, load_corpus, pmap
 THEOREMS = [
     "IrVerif.Scope.C17_total",
     "IrVerif.Scope.C17_consistent",
+    "IrVerif.Scope.C17_idempotent_partial",
 ]
 ASSUMPTIONS = [
     "byte-level parsing is protobuf's; Python RecursionError counts as 'raises'",
     "value-info content (type, shape, doc_string) and tensor payloads are opaque tokens in the model; "
     "metadata_props merge, quantization annotations, device configurations, functions are oracle-only",
+    "C17_idempotent_partial is proved for protos whose deserialized IR satisfies Serializable (SSA names, "
+    "no dangling references); for every other generated proto the fix-point is checked on the real code by "
+    "the oracle and on the model by running serialize . deserialize twice (counter model_not_fixpoint)",
     "audit events are those CPython raises for open/os.*/mmap/shutil/tempfile/glob/pathlib",
 ]
 
@@ -261,19 +265,24 @@ def mutate_fields(rng, m: onnx.ModelProto, hist: dict) -> None:
         vi.type.tensor_type.shape.dim.add().dim_value = 3
     elif kind == "func":
         f = m.functions.add()
-        f.name, f.domain = "f", "custom"
+        # names with the separators of the IR<10 "domain::name/value" value-info format (D106)
+        f.name = rng.choice(["f", "f", "f", "f/g", "f::g"])
+        f.domain = rng.choice(["custom", "custom", "custom", "a/b", "a::b", "a:"])
+        c = rng.choice(["c", "c", "c", "/blk/c", "s::c", ":c"])
         if rng.random() < 0.5:
             f.overload = "o1"
         f.input.extend(["a", "b"][: rng.randrange(0, 3)])
         n = f.node.add()
         n.op_type = "Add"
         n.input.extend(rng.choice([["a", "b"], ["a", "zz"], ["a", ""]]))
-        n.output.extend(rng.choice([["c"], ["a"], ["c", ""]]))
-        f.output.extend(rng.choice([["c"], ["c", "c"], ["nope"], []]))
+        n.output.extend(rng.choice([[c], ["a"], [c, ""]]))
+        f.output.extend(rng.choice([[c], [c, c], ["nope"], []]))
         o = f.opset_import.add()
         o.domain, o.version = "", 18
         if rng.random() < 0.5:
-            sc.gen_value_info(rng, f.value_info.add(), "c")
+            sc.gen_value_info(rng, f.value_info.add(), c)
+        if rng.random() < 0.25:
+            sc.gen_value_info(rng, m.graph.value_info.add(), f"{f.domain}::{f.name}/{c}")
     elif kind == "vinfo_metadata" and vis:
         e = rng.choice(vis).metadata_props.add()
         e.key, e.value = "k", "v"
@@ -294,6 +303,17 @@ def mutate_fields(rng, m: onnx.ModelProto, hist: dict) -> None:
         vi.type.map_type.key_type = 7
     elif kind == "swap_io" and len(g.input) and len(g.output):
         g.output[0].name = g.input[0].name
+
+
+def ir9_unparseable_function_value_info(q, q2) -> bool:
+    """q has a `domain::name/value` entry for a function of q and q2 lost it (D106)"""
+    lost = {v.name for v in q.graph.value_info} - {v.name for v in q2.graph.value_info}
+    for f in q.functions:
+        pre = f"{f.domain}::{f.name}/"
+        for name in lost:
+            if name.startswith(pre):
+                return True
+    return False
 
 
 def mutate_bytes(rng, data: bytes, hist: dict) -> bytes:
@@ -392,11 +412,17 @@ def run_case(part, m: onnx.ModelProto, stream: str, want_model: bool, lean_reqs:
             part.fail(sig, "; ".join(bad[:4]), case)
         # fix-point
         try:
+            audit3 = sc.FileAudit()
             with sc.TimeLimit(TIME_LIMIT_S):
                 try:
-                    q = serde.serialize_model(model)
+                    with audit3:
+                        q = serde.serialize_model(model)
                 except Exception as e:  # noqa: BLE001
                     part.count(f"to_proto_raised={type(sc.root_cause(e)).__name__}")
+                if audit3.events:
+                    # serializing what from_proto returned must not open / stat the files that
+                    # external tensors of the (untrusted) proto point to
+                    part.fail("file-access:to_proto", f"file-system events during to_proto(from_proto(p)): {audit3.events[:3]}", case)
                 if q is not None:
                     try:
                         m2 = serde.deserialize_model(q)
@@ -417,6 +443,8 @@ def run_case(part, m: onnx.ModelProto, stream: str, want_model: bool, lean_reqs:
                             sig = "fixpoint:value-info-shape-without-type"  # D100
                         elif initializer_info_regained(q, q2):
                             sig = "fixpoint:initializer-with-empty-value-info"  # D101
+                        elif q.ir_version < 10 and len(q.functions) and ir9_unparseable_function_value_info(q, q2):
+                            sig = "fixpoint:ir9-function-value-info-unparseable-name"  # D106
                         elif q.ir_version < 10 and any(f.overload for f in q.functions) and any(
                             "::" in v.name and "/" in v.name for v in q.graph.value_info
                         ):
@@ -563,22 +591,31 @@ def run(ctx: Ctx) -> None:
     for obj in load_corpus("C17"):
         replay(ctx, obj)
     shards = 16
-    n_field = ctx.pick(3200, 32000) // shards
-    n_bytes = ctx.pick(1600, 16000) // shards
+    n_field = ctx.pick(3200, 200000) // shards
+    n_bytes = ctx.pick(1600, 100000) // shards
     seeds = [ctx.rng.randrange(2**62) for _ in range(shards)]
     for part in pmap(_worker, [(s, n_field, n_bytes) for s in seeds]):
         ctx.merge(part)
 
 
+def _replay_cases(obj: dict) -> list:
+    """the case of a corpus line / failing-input replay, or the cases of the recorded correspondence
+    disagreements of an unchecked-obligation replay"""
+    if obj.get("case"):
+        return [obj["case"]]
+    ds = [d["case"] for d in obj.get("correspondence_disagreements") or [] if isinstance(d, dict) and d.get("case")]
+    return ds or [obj]
+
+
 def replay(ctx: Ctx, obj: dict) -> None:
     _quiet()
-    case = obj.get("case", obj)
-    m = onnx.ModelProto()
-    m.ParseFromString(binascii.unhexlify(case["proto_hex"]))
     part = Part()
     reqs: list = []
     pending: list = []
-    run_case(part, m, case.get("stream", "field"), case.get("stream", "field") == "field", reqs, pending)
+    for case in _replay_cases(obj):
+        m = onnx.ModelProto()
+        m.ParseFromString(binascii.unhexlify(case["proto_hex"]))
+        run_case(part, m, case.get("stream", "field"), case.get("stream", "field") == "field", reqs, pending)
     for out, p in zip(lean_batch(reqs), pending):
         diff_case(part, out, *p)
     ctx.merge(part)
